@@ -541,7 +541,7 @@ func init() {
 	core.Register(&core.Prop{
 		ID:    "C12",
 		Level: "model_checking",
-		Rule:  "E1: breadth-first search (one pass per label set) over all histories of CreateNode (element node in plain / XML / JSON format; second pass: plain node of type document / element / text / attribute; pool answer newest / fresh / oldest) . AddChild(any live node, any detached root) . RemoveAndReleaseTree(any live node) with at most 5 live nodes, deduplicated by canonical state (sorted forest shapes + pool size); after every operation the real links are compared with a slice-based mirror model, fresh nodes must be blank, pooled nodes reset and never live or duplicated, IDs never repeat (states and transitions counted). E2: every tree delivered through the Transform by all seven readers on corpus inputs and token strings is audited (links, acyclicity, pool membership) at every record and after the terminal result, also through the bare FormatReader whose caller never calls Release and calls Read twice more after the terminal result; a node released twice is caught by the shim pool; E2c: the csv2 / fixedlength2 hierarchy reader on every declaration hierarchy of up to 2 declarations and the EDI reader on every hierarchy of up to 3 (groups, nesting, (min,max) incl. min 2, every target position) x every line sequence up to 3 (thorough 4); E2b: the XML and JSON stream readers on every document of up to 3 (thorough 4) nodes x 19 / 18 target xpaths (the document root itself with accepting / rejecting filters, children, descendants, nested candidates). E2d: both stream readers over an input reader that fails twice at byte k (every k) and then carries on: the reader's cursor and candidate stay nodes of its own live tree. E3: 2-3 threads each running a private create/add/remove history under the cooperative scheduler at every pool/atomic operation, preemption bound 2 (all schedules), plus a free-running -race pass of the same bodies",
+		Rule:  "E1: breadth-first search (one pass per label set) over all histories of CreateNode (element node in plain / XML / JSON format; second pass: plain node of type document / element / text / attribute; pool answer newest / fresh / oldest) . AddChild(any live node, any detached root) . RemoveAndReleaseTree(any live node) with at most 5 live nodes, deduplicated by canonical state (sorted forest shapes + pool size); after every operation the real links are compared with a slice-based mirror model, fresh nodes must be blank, pooled nodes reset and never live or duplicated, IDs never repeat (states and transitions counted). E2: every tree delivered through the Transform by all seven readers on corpus inputs and token strings is audited (links, acyclicity, pool membership) at every record and after the terminal result, also through the bare FormatReader whose caller never calls Release and calls Read twice more after the terminal result; a node released twice is caught by the shim pool; E2c: the csv2 / fixedlength2 hierarchy reader on every declaration hierarchy of up to 2 declarations and the EDI reader on every hierarchy of up to 3 (groups, nesting, (min,max) incl. min 2, every target position) x every line sequence up to 3 (thorough 4); E2b: the XML and JSON stream readers on every document of up to 3 (thorough 4) nodes x 19 / 18 target xpaths (the document root itself with accepting / rejecting filters, children, descendants, nested candidates). E2d: both stream readers over an input reader that fails twice at byte k (every k) and then carries on: the reader's cursor and candidate stay nodes of its own live tree. E3: 2-3 threads each running a private create/add/remove history under the cooperative scheduler at every pool/atomic operation, preemption bound 2 (all schedules), plus a free-running -race pass of the same bodies; E1 deep trees: chains of every depth 1..140 with leaves at the bottom (and beside the chain), released at the root or halfway, then more nodes acquired than released",
 		Assumptions: []string{
 			"the shim pool (vsync.Pool: LIFO free list with a choice of newest/fresh/oldest on Get) models sync.Pool's freedom to keep, drop and reorder cached objects; the free-running pass uses the real sync.Pool",
 			"the -race pass is not exhaustive over schedules; it relies on the detector's happens-before analysis (exhaustive:false for that part)",
